@@ -330,6 +330,12 @@ class FleetImpl(BufImpl):
             now = f2t(self.env.now)
             n = len(self.store.items) + len(self.store.ready_items)
             return f"stat {float(self.edge.stats['time_averaged_num_of_items_in_fleet'])!r} {n} {now}"
+        if type(self) is FleetImpl and op[0] in ("rp", "rg") and len(op) > 2:
+            # Fleet.reserve_put / reserve_get only forward to the store; the store's `priority` argument (which no edge or node
+            # passes) is exercised by calling the store's own method
+            fn = self.store.reserve_put if op[0] == "rp" else self.store.reserve_get
+            r = self.call(op[1], lambda: fn(priority=op[2]))
+            return "err " + r[1] if r[0] == "err" else f"tok {self.reg(r[1])}"
         return BufImpl.dispatch(self, op)
 
 
@@ -367,6 +373,12 @@ class SlotImpl(FleetImpl):
             return self.fmt(self.call(None, self.store.reserve_put_cancel, self.tok(op[1])), "ok")
         if op[0] == "cg":
             return self.fmt(self.call(None, self.store.reserve_get_cancel, self.tok(op[1])), "ok")
+        if op[0] in ("rp", "rg") and len(op) > 2:
+            # the slotted ConveyorBelt only forwards reserve_put / reserve_get to its BeltStore; the store's `priority`
+            # argument (which no edge or node passes) is exercised by calling the store's own method
+            fn = self.store.reserve_put if op[0] == "rp" else self.store.reserve_get
+            r = self.call(op[1], lambda: fn(priority=op[2]))
+            return "err " + r[1] if r[0] == "err" else f"tok {self.reg(r[1])}"
         return BufImpl.dispatch(self, op)
 
 
